@@ -28,6 +28,16 @@ PROPS = {
                    "key, Scan, DescribeTable) is judged by TLC against the specification; exhaustive within the bounds.",
     ),
 }
+PROPS["C03"] = dict(
+    title="secondary indexes always mirror the base table",
+    quick=[G("M_IDX")],
+    thorough=[G("M_IDX", cfg="M_IDX_t")],
+    own=[parts("Index", "IdxCount", "IdxDesc")],
+    design_ref="DESIGN.md 6 C03",
+    level_text="Every history of put / overwrite / update / delete / clear / create-index / delete-index over a bounded table with two "
+               "global secondary indexes is enumerated by TLC and replayed on both clients; after every step TLC compares Scan and Query "
+               "through every index, and DescribeTable's per-index counts, with the index view DEFINED from the base table.",
+)
 
 # properties deliberately not claimed, with the reason (none so far: unbuilt ones get a work-in-progress reason)
 NOT_CLAIMED = {}
